@@ -188,24 +188,24 @@ CHECKS["C19"] = ("other",
 # rules added after the second round of seeded changes (appended to the claim text; the authoritative list is each module's docstring / DESIGN §10.3)
 MORE = {
     "C19": "Also: Keys and values in gen_rules are identified by origin (type string, n-th loop's key / value), not by local names; quotes-iff-string is decided per path with rulegen-private helpers interpreted in place.",
-    "C16": "Also: get_by_rules appends every top-level RuleCheck to the list of its name and never overwrites an entry; every evaluated test input is inserted into the structured result; lazy adaptor chains in build_junit_test_cases are read as the loops they abbreviate.",
-    "C13": "Also: No evaluator function keys a hash collection by document values outside one reviewed use (Hash for PathAwareValue disagrees with compare_eq for regexes and maps).",
-    "C10": "Also: The conversion used by every machine-readable report hands Int / Float to serde_json's i64 / f64 constructors without a numeric cast.",
-    "C06": "Also: The --test-data suffix filter of `test` accepts every documented spelling, so a spec file cannot be skipped silently.",
+    "C16": "Also: get_by_rules appends every top-level RuleCheck to the list of its name and never overwrites an entry; every evaluated test input is inserted into the structured result; lazy adaptor chains in build_junit_test_cases are read as the loops they abbreviate. The plain and structured --dir handlers parse rules files under the same name.",
+    "C13": "Also: No evaluator function keys a hash collection by document values outside one reviewed use (Hash for PathAwareValue disagrees with compare_eq for regexes and maps). The one-element-literal-list shorthand of the keys filter is guarded by len() == 1.",
+    "C10": "Also: The conversion used by every machine-readable report hands Int / Float to serde_json's i64 / f64 constructors without a numeric cast. No list element / map entry is skipped by the document conversion loops.",
+    "C06": "Also: The --test-data suffix filter of `test` accepts every documented spelling, so a spec file cannot be skipped silently. No Result is turned into nothing (flatten / flat_map over Results, .ok() on an error-carrying Result) outside three reviewed walkdir idioms.",
     "C04": "Also: The capture-key de-duplication compares the elements' paths (not a component such as the location alone) besides their values.",
     "C01": "Also: evaluator error discipline — in each of the ~150 reachable Result-returning functions under rules:: a callee's Err leads to an Err return on every path (one reviewed conversion: NotComparable in each_lhs_compare). An empty selection gives SKIP under every unary operator, both operator polarities and both prefix polarities (except the documented empty-on-variable case).",
     "C02": "Also: every delegating RecordTracer::end_record hands the incoming record on unchanged; the one rewriting wrapper keeps name and status and rewrites only the called rule's record. The rewriting wrapper rebuilds a RuleCheck only on the path where its name was compared with the called rule's and found equal.",
-    "C03": "Also: the side over which a negated query-vs-query comparison recomputes its difference, as a table over (operator, rhs.len()>=lhs.len()).",
+    "C03": "Also: the side over which a negated query-vs-query comparison recomputes its difference, as a table over (operator, rhs.len()>=lhs.len()). A flipped query-vs-query result is rebuilt with a recomputed difference list.",
     "C05": "Also: chrono::Local (process time zone) is an ambient source. A hash iteration that is only collected into a Vec which is sorted before any other use is discharged on the CFG (the sort dominates every other use).",
-    "C07": "Also: no PASS/FAIL entry is ever removed from the summary table's section maps (only the reviewed SKIP clean-up). SARIF turns each message of a failing clause into exactly one result (fold read as a loop; one push per element).",
+    "C07": "Also: no PASS/FAIL entry is ever removed from the summary table's section maps (only the reviewed SKIP clean-up). SARIF turns each message of a failing clause into exactly one result (fold read as a loop; one push per element). While the summary table collects the rules, its section maps are only inserted into.",
     "C08": "Also: reviewed table rows whose reason relates two sites are re-decided (split(P)[1] only under contains(P) of the same constant), and positive controls on a fixture crate for every construct family and for cycle detection. The receiver of TestResult::insert_test_case (which ends in unreachable!() for Err) is the Ok variant on every path of every caller; every regex is built with the engine's default backtracking budget. Discharge rule G: args[position - c] in a closure / private helper of a built-in's call, position a literal at every call site and 0 <= position - c < arity.",
-    "C09": "Also: the fold in get_rule_info pushes every rules file that was read exactly once; Validate::execute never removes entries from the collected file lists. FileReport::combine extends each bucket with the whole bucket of the same name of the other report (no filtered or cross-wired sequence); the structured evaluator's two folds collect every parsed rules file and every data file exactly once.",
+    "C09": "Also: the fold in get_rule_info pushes every rules file that was read exactly once; Validate::execute never removes entries from the collected file lists. FileReport::combine extends each bucket with the whole bucket of the same name of the other report (no filtered or cross-wired sequence); the structured evaluator's two folds collect every parsed rules file and every data file exactly once. binary_operation emits FAIL checks per element of the difference list only.",
     "C11": "Also: path-sensitive decision table of all three tag decision points (expanded iff the tag is in SINGLE_VALUE_FUNC_REF or SEQUENCE_VALUE_FUNC_REF, whatever the payload kind); a genuine loader disagreement was found and repaired. An entry point that reads one text as JSON and as YAML tries the second format on every path on which the first parse failed.",
     "C12": "Also: the per-data-file JUnit counters are initialised inside the loop over the data files. The discovery loops of Validate::execute skip a found file only for not being a regular file or lacking a supported extension, and walk_dir drops no entries (shared with C17).",
     "C14": "Also: a separator is required after the or-keyword and after not; list/map literals separate with the layout-tolerant separated_by; the text of string/regex literals reaches the value only through slicing at the escape. Whoever spells out one spelling of a keyword accepts all of them (single recogniser); a file-level when block parses its body with the same clause parsers as one inside a rule; the traversal step for an explicit `this` continues on the same current value, resolver and converter.",
     "C15": "Also: every Ok return of a parameterised call follows exactly one evaluation of the called rule; a bare %v hands the stored entry on unchanged (a Literal stays Literal).",
-    "C17": "Also: every file accepted by a discovery loop reaches build_data_file before the next iteration. The only ways a found file is skipped are the is_file and extension tests (whole loop body, natural loops), and walk_dir applies nothing that drops entries.",
-    "C18": "Also: parse_epoch's value passes only through parse_from_rfc3339 -> with_timezone::<Utc> -> timestamp; substring offsets are truncated to u16 (never clamped); no buffer created outside the per-element loop flows into an element's result; json_parse errors on unparsable text. resolve_function returns Ok only with what the function's call produced; numbers change type in the converters through the `as` cast alone (no floor / round / abs); the join shape is decided with exact positions.",
+    "C17": "Also: every file accepted by a discovery loop reaches build_data_file before the next iteration. The only ways a found file is skipped are the is_file and extension tests (whole loop body, natural loops), and walk_dir applies nothing that drops entries. merge never swaps / replaces one of the parallel key / value structures; no mutable borrow of the parameters in the per-file loops.",
+    "C18": "Also: parse_epoch's value passes only through parse_from_rfc3339 -> with_timezone::<Utc> -> timestamp; substring offsets are truncated to u16 (never clamped); no buffer created outside the per-element loop flows into an element's result; json_parse errors on unparsable text. resolve_function returns Ok only with what the function's call produced; numbers change type in the converters through the `as` cast alone (no floor / round / abs); the join shape is decided with exact positions. Function results are wrapped as Resolved only; carried state in element-wise functions is harmless only if nothing written to it in the loop depends on the element.",
 }
 
 NOT_APPLICABLE = {
